@@ -23,6 +23,12 @@ regenerated lock table; the lines handled here connect the harness to that table
   (`Model/TxCount.lean`, atomic alphabet, a seeded interleaving of n × min(k, 48) enter/leave pairs
   with a resize falling due) predicts `completed` — the counter is back to 0 and the resize runs
   (`count_eq_open`); a stall of the real store is a `#ORACLE-FAIL` of the harness and a DIFF here;
+* `conc nestread outer=<iter|batch|child> nested=<get|exists|iter> n=<k> pending=<before|between|after>
+  sched=<e0,e0,l0,q,…> => completed:resizes=1`: run `nestread` — a thread holding an outer store
+  transaction performs k consecutive nested reads while another thread's `batch()` has scheduled a
+  resize; `sched` is the enter/leave/request/resize sequence the harness went through (every
+  operation returned, watchdog); replayed on the counter model with per-thread depth
+  (`Model/TxCount.lean`, `nested_reads_keep_registered`): the model must take every step;
 * `conc segcache round=… archive_height=… fork_from=… top=… => ok`: run `segcache` — after a reorg
   rooted below the archive header (same archive height, other archive header) a fresh node was
   state-synced from the segments `Chain::segmenter()` serves; the expected answer is `ok` (every
@@ -90,6 +96,12 @@ def handle (st : St) (args : List String) (impl : String) : St × Verdict :=
       | some progs => ({ st with sims := st.sims + 1 }, cmpModel (simAll progs seed) impl)
       | none => (st, .diff "op-not-in-lock-table")
     | _, _ => (st, .unknown)
+  | "nestread" :: rest =>
+    match (rest.find? (·.startsWith "sched=")).map (fun a => (a.drop 6).toString) with
+    | some sc => match (sc.splitOn ",").mapM GV.TxCount.parseAct with
+      | some acts => (st, cmpModel (GV.TxCount.replay 2 acts) impl)
+      | none => (st, .unknown)
+    | none => (st, .unknown)
   | "segcache" :: rest =>
     match kvArg rest "archive_height", kvArg rest "fork_from" with
     | some _, some _ => (st, cmpModel "ok" impl)
